@@ -5,6 +5,7 @@ it on Python lists and dicts, whose object identity stands for container identit
 
     alias   u = v | u[0] = v | u = idf(v) | u = v[0] | u = mk(v)() | [u, _] = [v, 0] | {"k": u} = {"k": v}
             | for [_, e] in [v] { u = e } | u = [v] | u = {"k": v}              (the last two: fresh holder, shared element)
+    build   u = 0 .. 2
     copy    u = [v..] | u = {v..} | u = v + [] | u = [] + v | u = v[:] | u = v[0:1] | [..u] = v | {..u} = v | u += [k]
     mutate  u[0] = k | u.k = k | u[0:1] = [k] | u["k"] = k | setf(u, k) | u[0] += 1 | u[0][0] = k (through a stored child)
     observe print of every variable, `===` between every pair of variables of the same kind and between every stored
@@ -113,6 +114,7 @@ def ops(env, k):
                 out.append(("copy:object-spread", f"{u} = {{{v}..}}", lambda e, u=u, v=v: e.__setitem__(u, dict(e[v]))))
                 out.append(("copy:object-collect", f"{{..{u}}} = {v}", lambda e, u=u, v=v: e.__setitem__(u, dict(e[v]))))
         # one variable
+        out.append(("build:range", f"{u} = 0 .. 2", lambda e, u=u: e.__setitem__(u, [0, 1])))
         if ul:
             if len(cu) < 3:
                 out.append(("copy:op-assign", f"{u} += [{k}]", lambda e, u=u: e.__setitem__(u, e[u] + [k])))
